@@ -239,6 +239,12 @@ impl Check for C17 {
         let found = realise_probed(&plan, hash_key, probes, |c| {
             let n_guess = match guarded_size(c) {
                 Some(WRes::Ok(n)) => n,
+                // a chunk / item builder has no size function, and a rejected configuration has no
+                // size: sweep well past what its elements would occupy, so that a writer that
+                // validates late (after storing what precedes the offending element) has the room
+                // to get that far
+                None => 2 * spec.weight() + 16,
+                Some(_) if ar.chance(1, 4) => 2 * spec.weight().min(4096) + 16,
                 _ => 16,
             };
             if n_guess > 1 << 19 {
